@@ -514,6 +514,9 @@ func extractTextData(stsd *mp4.StsdBox, rep *m.RepresentationType) error {
 func (ch *channel) updateAndWriteMPD(log *slog.Logger) error {
 	for _, asSet := range ch.mpd.Periods[0].AdaptationSets {
 		stl := asSet.SegmentTemplate
+		if stl == nil || stl.Timescale == nil || ch.masterTimescale == 0 {
+			continue // AdaptationSet left incomplete by an init segment that was refused half-way
+		}
 		dur := uint64(ch.masterSegDuration) * uint64((*stl.Timescale)) / uint64(ch.masterTimescale)
 		stl.Duration = m.Ptr(uint32(dur))
 		stl.StartNumber = m.Ptr(uint32(0))
